@@ -721,7 +721,10 @@ def unfitted_oracle():
                  'percent_point': (Uq,), 'ppf': (Uq,), 'sample': (3,), 'to_dict': ()}
     biv_calls = {'cumulative_distribution': (Q,), 'cdf': (Q,), 'probability_density': (Q,), 'pdf': (Q,), 'log_probability_density': (Q,),
                  'partial_derivative': (Q,), 'partial_derivative_scalar': (.3, .4), 'percent_point': (Uq, Uq), 'ppf': (Uq, Uq),
-                 'sample': (3,), 'to_dict': ()}
+                 'sample': (3,)}
+    # Bivariate.to_dict of an unfitted copula returns {'copula_type', 'theta': None, 'tau': None} and round-trips to an unfitted copula
+    # (C14: "unfitted models round-trip to unfitted models"; theorem C14_unfitted_biv_roundtrip): serialisation is not a query.  An
+    # earlier version of this check demanded NotFittedError here (listed as F25) - that demanded more than C19 states and was withdrawn.
     multi_calls = {'probability_density': (T,), 'pdf': (T,), 'log_probability_density': (T,), 'cumulative_distribution': (T,), 'cdf': (T,),
                    'sample': (3,), 'to_dict': ()}
     # VineCopula.to_dict of an unfitted vine returns {'type', 'vine_type', 'fitted': False} by design (it round-trips): not a query
@@ -744,7 +747,7 @@ def unfitted_oracle():
             c = cls()
             c.theta, c.tau = 0, 0.0
             return c
-        objs.append((cls.__name__ + '[theta=0]', cls.__name__, mk0, {k: v for k, v in biv_calls.items() if k != 'to_dict'}))
+        objs.append((cls.__name__ + '[theta=0]', cls.__name__, mk0, dict(biv_calls)))
     objs.append(('GaussianMultivariate', 'GaussianMultivariate', GaussianMultivariate, multi_calls))
     objs.append(('GaussianMultivariate(random_state=3)', 'GaussianMultivariate', lambda: GaussianMultivariate(random_state=3), multi_calls))
     for vt in ('center', 'direct', 'regular'):
@@ -763,8 +766,6 @@ def unfitted_oracle():
                 got = r[1] if r[0] == 'err' else 'returns'
                 if base in ('Clayton', 'Frank', 'Gumbel') and meth == 'sample' and got == 'TypeError':
                     key = 'F23:unfitted-bivariate-sample-TypeError'
-                elif base in ('Clayton', 'Frank', 'Gumbel') and meth == 'to_dict' and got == 'returns':
-                    key = 'F25:unfitted-bivariate-to_dict-returns'
                 elif base == 'VineCopula' and got == 'AttributeError':
                     key = f'F30:unfitted-vine-{meth}-AttributeError'
                 else:
